@@ -536,8 +536,9 @@ def rule_route(ctx):
     ctx.ob(R, fm, fm.node, sorted_here or is_set, "the producer turns partitions_for_topic() into a list without sorting, so it relies on it being a *set* of ids "
                                                  "(ascending when listed); it now returns something whose order is the broker's listing order", text="ordered-by-id")
     # explicit partition bypasses the partitioner
-    pt = [t for t in cp.nodes if t.kind == "test" and is_none_test(t.ast, negate=True) is not None and unparse(is_none_test(t.ast, negate=True)) == fp.params()[2]]
-    ok = len(pt) == 1 and call not in cp.reachable([m for m, l in pt[0].succ if l == "T"], include_src=True)
+    from ..rulekit import none_tests as _nts
+    pt = _nts(cp, fp.params()[2])
+    ok = len(pt) == 1 and call not in cp.reachable([m for m, l in pt[0][0].succ if l == pt[0][2]], include_src=True)
     ctx.ob(R, fp, fp.node, ok, "an explicit partition does not bypass the partitioner", text="explicit-partition")
     # send() passes the serialized key
     fs = ctx.fn("aiokafka.producer.producer.AIOKafkaProducer.send")
